@@ -388,14 +388,23 @@ AssertInto(g, op) ==
       old == Get(g.db, key) IN
   [g EXCEPT !.db = Put(@, key, IF op.atEnd THEN Append(old, fact) ELSE <<fact>> \o old), !.nf = @ + 1]
 
+\* the consumer fills a table: name(lo), name(lo+1), ..., name(lo+n-1) through assert_fact, in this order
+\* (one API step per fact in the real code; one step here, because nothing else can run in between)
+AssertNInto(g, op) ==
+  LET key == KeyStr(op.name, 1)
+      new == [i \in 1..op.n |-> [id |-> g.nf + i - 1, term |-> C(op.name, <<I(ToString(op.lo + i - 1))>>), nv |-> 0]]
+      old == Get(g.db, key) IN
+  [g EXCEPT !.db = Put(@, key, IF op.atEnd THEN old \o new ELSE [i \in 1..op.n |-> new[op.n + 1 - i]] \o old), !.nf = @ + op.n]
+
 Ok == [k |-> "ok"]
 
 \* immediate API operations
 Imm(op, t) ==
-  /\ op.op \in {"load", "loadfail", "register", "assert", "clear", "query", "close"}
+  /\ op.op \in {"load", "loadfail", "register", "assert", "assertn", "clear", "query", "close"}
   /\ LET es == CASE op.op = "load" -> [engs EXCEPT ![op.e] = LoadInto(@, ScriptDefs(op.script), op.ow)]
                  [] op.op = "register" -> [engs EXCEPT ![op.e] = RegisterInto(@, op)]
                  [] op.op = "assert" -> [engs EXCEPT ![op.e] = AssertInto(@, op)]
+                 [] op.op = "assertn" -> [engs EXCEPT ![op.e] = AssertNInto(@, op)]
                  [] op.op = "clear" -> [engs EXCEPT ![op.e] = [InitEng EXCEPT !.ncalls = engs[op.e].ncalls, !.nf = engs[op.e].nf]]
                  [] OTHER -> engs
          rs == CASE op.op = "query" -> Put(runs, op.r, NewRun(op.e, op.goal, op.qnv))
@@ -540,7 +549,7 @@ FactIdsUnique ==
   \A e \in DOMAIN engs :
     LET g == engs[e]
         all == UNION {{<<k, i>> : i \in DOMAIN g.db[k]} : k \in DOMAIN g.db} IN
-    /\ \A p, q \in all : p # q => g.db[p[1]][p[2]].id # g.db[q[1]][q[2]].id
+    /\ Cardinality({g.db[p[1]][p[2]].id : p \in all}) = Cardinality(all)    \* pairwise different
     /\ \A p \in all : g.db[p[1]][p[2]].id < g.nf
 
 \* every fact is stored under its own key, in canonical (fact-local) form
@@ -558,16 +567,18 @@ BarriersOK ==
 \* C14 (logical update view), with the visited fact identities kept as a history in the choice point:
 \* an enumeration visits facts of its snapshot only, in snapshot order, each at most once; a fact a
 \* retract has returned is gone from the database for good
-IsSubseqOf(a, b) == a = SelectSeq(b, LAMBDA x : \E i \in DOMAIN a : a[i] = x)
+IsSubseqOf(a, b) == LET as == {a[i] : i \in DOMAIN a} IN a = SelectSeq(b, LAMBDA x : x \in as)
 SnapshotsOK ==
   \A r \in DOMAIN runs : \A i \in DOMAIN runs[r].cps :
      LET cp == runs[r].cps[i] IN
      cp.kind \in {"retract", "alts"} =>
         LET ids == [p \in DOMAIN cp.snap |-> cp.snap[p].id] IN
-        /\ \A p, q \in DOMAIN ids : p # q => ids[p] # ids[q]
-        /\ \A p, q \in DOMAIN cp.seen : p # q => cp.seen[p] # cp.seen[q]
+        /\ Cardinality({ids[p] : p \in DOMAIN ids}) = Len(ids)                  \* pairwise different
+        /\ Cardinality({cp.seen[p] : p \in DOMAIN cp.seen}) = Len(cp.seen)      \* each at most once
         /\ IsSubseqOf(cp.seen, ids)
-        /\ (cp.kind = "retract" => \A p \in DOMAIN cp.seen : ~InDb(engs[runs[r].e].db, cp.key, cp.seen[p]))
+        /\ (cp.kind = "retract" =>
+              LET now == Get(engs[runs[r].e].db, cp.key) IN
+              {cp.seen[p] : p \in DOMAIN cp.seen} \cap {now[p].id : p \in DOMAIN now} = {})
 
 
 \* C07 (action property, independent of the definitions of the steps): in one step the facts of a
@@ -582,6 +593,10 @@ DbStepShape ==
             \/ new = old
             \/ (Len(new) = Len(old) + 1 /\ SubSeq(new, 1, Len(old)) = old /\ new[Len(new)].id = engs[e].nf)
             \/ (Len(new) = Len(old) + 1 /\ Tail(new) = old /\ new[1].id = engs[e].nf)
+            \/ LET n == Len(new) - Len(old) IN     \* the API step that fills a table: n single assertions in a row
+                 /\ n > 1 /\ Len(hist') = Len(hist) + 1 /\ hist'[Len(hist')].op.op = "assertn" /\ hist'[Len(hist')].op.n = n
+                 /\ \/ SubSeq(new, 1, Len(old)) = old /\ \A i \in 1..n : new[Len(old) + i].id = engs[e].nf + i - 1
+                    \/ SubSeq(new, n + 1, Len(new)) = old /\ \A i \in 1..n : new[i].id = engs[e].nf + n - i
             \/ new = SelectSeq(old, LAMBDA f : \E i \in DOMAIN new : new[i].id = f.id)]_vars
 
 \* C14 (temporal, under weak fairness of Next, on families whose searches are finite by design):
